@@ -22,9 +22,9 @@ ASSUMPTIONS = ['a key prefix literally named "full" or "metadata" together with 
                'clean-up performed by a transient close is not required to keep discoverable recordings fetchable (excluded by the property)',
                'fake bucket = the six boto3 calls the facade uses']
 
-PREFIXES = ['', 'a', 'ab', 'a/b', 'nightly builds', u'caf\u00e9', 'r&d+x']
+PREFIXES = ['', 'a', 'ab', 'a/b', 'nightly builds', u'caf\u00e9', 'r&d+x', 'imports/metadata']
 ROOT = 'tape_recorder_recordings/'
-CATS = ['Op', 'OpX', '/orders', '', 'a/b', 'Op']      # a request path, the empty name and a nested name are legal categories too
+CATS = ['Op', 'OpX', '/orders', '', 'a/b', 'FetchMetadata']      # a request path, the empty name and a nested name are legal categories too
 
 
 ARCHIVE_ROOT = 'archive/'
@@ -446,6 +446,60 @@ def wipe_then_resave(ctx):
                         break
 
 
+def refused_delete_then_close_again(ctx):
+    """The bucket refuses one of the deletes of a transient cassette's close() (the close raises); the close is repeated - explicitly, by a
+    with-exit, or by a fresh clean-up cassette on the same prefix. After a close that RETURNED, none of the cassette's own recordings is left
+    (neither their full nor their metadata objects), and foreign objects are untouched."""
+    for prefix in ('', 'ab', 'a/b'):
+        for how in ('same_object', 'with_exit', 'fresh_cleanup_cassette'):
+            probe = FakeS3()
+            with probe.installed():
+                c0 = probe.cassette('t', key_prefix=prefix, read_only=False, transient=True)
+                for i in range(3):
+                    r = c0.create_new_recording('Op')
+                    r.set_data('k', i)
+                    c0.save_recording(r)
+                n0 = probe.mutations
+                c0.close()
+                n_deletes = probe.mutations - n0
+            for d in range(n_deletes):
+                fake = FakeS3()
+                with fake.installed():
+                    fake.put('foreign', 'bkt', 'other/file', b'foreign', {})
+                    c = fake.cassette('t', key_prefix=prefix, read_only=False, transient=True)
+                    for i in range(3):
+                        r = c.create_new_recording('Op')
+                        r.set_data('k', i)
+                        c.save_recording(r)
+                    fake.reject_deletes = {'at': fake.mutations + d, 'times': 1}
+                    w = {'refused_delete': True, 'prefix': prefix, 'delete_number': d, 'repeated_by': how}
+                    ctx.case(w)
+                    ctx.count('closes_with_a_refused_delete')
+                    try:
+                        c.close()
+                        first_close_raised = False
+                    except ClientError:
+                        first_close_raised = True
+                    fake.reject_deletes = None
+                    try:
+                        if how == 'same_object':
+                            c.close()
+                        elif how == 'with_exit':
+                            with c:
+                                pass
+                        else:
+                            fake.cassette('t', key_prefix=prefix, read_only=False, transient=True).close()
+                    except Exception as ex:
+                        ctx.violation('repeating the close of a transient cassette after a refused delete raised %s' % type(ex).__name__, w)
+                        continue
+                    left = [k for k in fake.snapshot() if k != 'other/file']
+                    if left:
+                        ctx.violation('a close that returned normally (after an earlier close was refused a delete) left %d of the cassette\'s own objects in the bucket' % len(left),
+                                      dict(w, first_close_raised=first_close_raised, left=sorted(left)[:3]))
+                    if fake.snapshot().get('other/file') != b'foreign':
+                        ctx.violation('foreign object changed or deleted', w)
+
+
 def large_recordings(ctx):
     """Recordings of 100 kB .. 65 MB (33 and 129 MB more in the thorough tier): whatever the size, what lookup discovers after the save is
     completely fetchable and holds what was saved."""
@@ -487,6 +541,7 @@ def run(ctx):
     if ctx.shard == 0:
         wipe_then_resave(ctx)
         large_recordings(ctx)
+        refused_delete_then_close_again(ctx)
     from playback.tape_cassettes.s3.s3_tape_cassette import S3TapeCassette
     env.anchor(S3TapeCassette, '_save_recording')
     n = ctx.budget(300, 20000)
@@ -500,6 +555,8 @@ def run(ctx):
 
 
 def replay(ctx, w):
+    if w.get('refused_delete'):
+        return refused_delete_then_close_again(ctx)
     if w.get('large_recordings'):
         return large_recordings(ctx)
     if w.get('wipe_then_resave'):
